@@ -40,6 +40,12 @@ from golem.core.optimisers.random_graph_factory import RandomGrowthGraphFactory
 from golem.core.optimisers.opt_node_factory import DefaultOptNodeFactory
 from golem.core.optimisers.fitness import SingleObjFitness
 
+try:        # the bandit agents fit tiny KMeans models: one BLAS / OpenMP thread is 100x cheaper on a shared machine
+    from threadpoolctl import threadpool_limits
+    threadpool_limits(1)
+except Exception:
+    pass
+
 REQ = ['Evo.Variation']
 # the case files open nat_scope / string_scope, so literals need no scope delimiters (much cheaper to elaborate)
 CASE_TY = {'mutation': 'config * list (list cnode * bool) * list (list cnode) * list mchoice * observation',
@@ -1293,5 +1299,8 @@ def replay(ctx, payload):
         return
     spec = case['spec']
     # node uids come from uuid4 and set iteration order depends on them: re-run under several seeds
-    specs = [spec] + [dict(spec, seed=spec['seed'] + k) for k in range(1, 25)]
+    bases = [spec]
+    if spec['cfg'].get('agent_type'):       # a case about operator agents is replayed with every context encoder
+        bases = [dict(spec, cfg=dict(spec['cfg'], context=c)) for c in CONTEXT_TYPES]
+    specs = [dict(b, seed=spec['seed'] + k) for b in bases for k in range(25 // len(bases) + 1)]
     evaluate(ctx, [run_case_safe(s) for s in specs], group_prefix='replay-')
